@@ -67,6 +67,27 @@ impl Rng {
         self.fill(&mut v);
         v
     }
+    /// Bytes with structure: random, constant fill, counting up/down, a short repeating pattern.
+    /// Arguments "of arbitrary content" include highly regular content, which uniform noise never is.
+    pub fn pattern_bytes(&mut self, n: usize) -> Vec<u8> {
+        match self.below(8) {
+            0 => vec![*self.pick(&[0x00u8, 0xFF, 0x01, 0x80, 0x7F, 0x0F]); n],
+            1 => {
+                let start = self.byte();
+                (0..n).map(|i| start.wrapping_add(i as u8)).collect()
+            }
+            2 => {
+                let start = self.byte();
+                (0..n).map(|i| start.wrapping_sub(i as u8)).collect()
+            }
+            3 => {
+                let k = 1 + self.below(4) as usize;
+                let pat = self.bytes(k);
+                (0..n).map(|i| pat[i % k]).collect()
+            }
+            _ => self.bytes(n),
+        }
+    }
     pub fn pick<'a, T>(&mut self, xs: &'a [T]) -> &'a T {
         &xs[self.below(xs.len() as u64) as usize]
     }
